@@ -5,9 +5,11 @@ CONSTANTS
   DualDims = {2}
   SliceBy = "global"
   SwapBlockedSettings = FALSE
+  DtypeRule = "all"
   EmitJson = TRUE
 INVARIANT RhsLayout
 INVARIANT SolutionLayout
+INVARIANT RhsKeepsComplex
 INVARIANT SettingsHandedOn
 INVARIANT ReturnShape
 INVARIANT Emit
